@@ -45,11 +45,54 @@ PROPS = (('adapt', 'dt_adapt'), ('cfl', 'dt_cfl'), ('force', 'dt_force'),
          ('visc', 'dt_visc'))
 LIM = 32767
 # The particles lie on the x axis; the NNPS is nevertheless built with dim=3:
-# with dim < 3, LinkedListNNPS bins a single point (all extents < 1e-12 are
-# padded by +-0.5 in ALL three directions, flatten() ignores `dim`) beyond
-# the end of its head array as soon as 2*hmax < 1 - a heap overwrite of the
-# neighbour search (C01 territory) that must not disturb this check.
+# on the pinned tree LinkedListNNPS with dim < 3 binned a single point (all
+# extents < 1e-12 are padded by +-0.5 in ALL three directions, flatten()
+# ignored `dim`) beyond the end of its head array as soon as 2*hmax < 1 - a
+# heap overwrite of the neighbour search (C01 territory, repaired in /repo
+# since) that must not disturb this check.
 NNPS_DIM = 3
+
+
+def seed_defect(name):
+    """Self-test of the binding (C19.py --selftest, or C19_SEED_DEFECT=name):
+    re-introduce a repaired defect in THIS process only, by replacing the
+    method on the imported class.  /repo is not touched."""
+    import numpy as np
+    from pysph.sph.integrator import Integrator
+    if name == 'hmin1':
+        def compute_h_minimum(self):
+            hmin = 1.0                         # the old start value
+            for pa in self.acceleration_evals[0].particle_arrays:
+                if pa.get_number_of_particles() == 0:
+                    continue
+                h = pa.get_carray('h')
+                if h.minimum < hmin:
+                    hmin = h.minimum
+            self.h_minimum = hmin
+        Integrator.compute_h_minimum = compute_h_minimum
+    elif name == 'empty':
+        def compute_h_minimum(self):
+            hmin = np.inf
+            for pa in self.acceleration_evals[0].particle_arrays:
+                h = pa.get_carray('h')         # empty arrays not skipped
+                if h.minimum < hmin:
+                    hmin = h.minimum
+            self.h_minimum = hmin
+        Integrator.compute_h_minimum = compute_h_minimum
+    elif name == 'adaptinf':
+        orig = Integrator._get_explicit_dt_adapt
+
+        def _get_explicit_dt_adapt(self):
+            r = orig(self)
+            if r is None and self._has_dt_adapt and not any(
+                    pa.get_number_of_particles(real=True) > 0
+                    for pa in self.acceleration_evals[0].particle_arrays
+                    if 'dt_adapt' in pa.properties):
+                return np.inf                  # the old `dt_min > 0.0` test
+            return r
+        Integrator._get_explicit_dt_adapt = _get_explicit_dt_adapt
+    else:
+        raise SystemExit('unknown defect %r' % name)
 
 
 class ArraysOnly(object):
@@ -160,6 +203,8 @@ def run_case(case):
 
 def main():
     inp, outp = sys.argv[1], sys.argv[2]
+    if os.environ.get('C19_SEED_DEFECT'):
+        seed_defect(os.environ['C19_SEED_DEFECT'])
     with open(inp) as fi, open(outp, 'w') as fo:
         for line in fi:
             case = json.loads(line)
